@@ -76,6 +76,11 @@ def level(k, splits, base, kinds, res):
             except StopIteration as ex:
                 return ex.value
         return nxt()
+    if splits[k] == 2:
+        # a new greenlet whose parent is a not-yet-started placeholder greenlet (legal: when the child finishes the
+        # placeholder is started with its result); such an ancestor contributes no frames to the running stack
+        ph = greenlet.greenlet(lambda *a: a[0] if a else None)
+        return greenlet.greenlet(call, parent=ph).switch()
     if splits[k]:
         return greenlet.greenlet(call).switch()
     return call()
@@ -143,7 +148,7 @@ def configs(tier):
     b = bounds(tier)
     use_gl = greenlet is not None
     for depth in range(1, b["max_depth"] + 1):
-        for splits in itertools.product([0, 1] if use_gl else [0], repeat=depth):
+        for splits in itertools.product([0, 1, 2] if (use_gl and depth <= 3) else ([0, 1] if use_gl else [0]), repeat=depth):
             for kinds in itertools.product("fgc", repeat=depth):
                 yield (list(splits), "".join(kinds))
 
